@@ -318,6 +318,11 @@ func parseMember(member string) (Member, error) {
 	if found {
 		// Parse the member properties.
 		for _, pStr := range strings.Split(properties, propertyDelimiter) {
+			if pStr == "" {
+				// An empty property carries no data; keeping it would make
+				// the parsed member differ from its own serialization.
+				continue
+			}
 			p, err := parseProperty(pStr)
 			if err != nil {
 				return newInvalidMember(), err
